@@ -1,12 +1,208 @@
 /-
-Driver operations for the Wire model (line protocol). Core Lean only.
+Driver operations for the Wire model (C14, line protocol). Core Lean only.
 `handle st words` returns `none` when the first word is not one of this module's operations.
+
+Canonical text form of a message (the same on the Go side, harness/cmd/drive/c14.go):
+space-separated tokens, numbers in decimal, byte strings in lower-case hex (`-` = empty)
+
+  version <pv> <services> <ts> <you> <me> <nonce> <ua-hex> <lastblock> <disablerelay 0|1>
+          where <you>/<me> = <ts> <services> <ip-hex> <port>
+  verack | getaddr | sendheaders | mempool
+  addr <n> (<ts> <services> <ip-hex> <port>)*
+  getheaders|getblocks <pv> <stop-hex> <n> <hash-hex>*
+  headers <n> (<version> <prev-hex> <merkle-hex> <ts> <bits> <nonce>)*
+  inv|getdata|notfound <n> (<type> <hash-hex>)*
+  ping|pong <nonce>
+  reject <cmd-hex> <code> <reason-hex> <hash-hex>
+  feefilter <fee>
+  protoconf <numberOfFields> <maxRecvPayloadLength>
+
+Operations (answers are one line):
+  wcfg <ebs>                      set the global limit as wire.SetLimits(ebs) does   -> <maxMessagePayload>
+  wsha <hex>                      SHA-256                                            -> <hex>
+  wwf <pver> <msg…>               the decidable well-formedness predicate WF          -> 1 | 0
+  wenc <pver> <msg…>              BsvEncode                                           -> ok <hex> | err <class>
+  wdec <pver> <command> <hex>     Bsvdecode of the command's type                     -> ok <msg…> | err <class>
+  walloc <pver> <command> <hex>   allocation meter of that decode                     -> <n> <max> <sum>
+  wwrite <pver> <net> <msg…>      WriteMessage                                        -> ok <hex> | err <class>
+  wframe <pver> <net> <hex>       ReadMessage                                         -> ok <consumed> <msg…> | err <class>
+  wfalloc <pver> <net> <hex>      allocation meter of that ReadMessage                -> <n> <max> <sum>
 -/
+import BHS.Model.Wire
+import BHS.Model.WireSha
+
 namespace Driver.Ops.Wire
+open BHS BHS.Wire BHS.Gen.WireC
 
 structure S where
-  unit : Unit := ()
+  gmax : Nat := BHS.Wire.serviceMaxPayload
 
-def handle (_st : S) (_ws : List String) : Option (S × String) := none
+def hexDigit (n : Nat) : Char :=
+  if n < 10 then Char.ofNat (48 + n) else Char.ofNat (87 + n)
+
+def toHex (b : Bytes) : String :=
+  if b.isEmpty then "-"
+  else b.foldl (fun s x => (s.push (hexDigit (x.toNat / 16))).push (hexDigit (x.toNat % 16))) ""
+
+def hexVal (c : Char) : Option Nat :=
+  let n := c.toNat
+  if 48 ≤ n ∧ n ≤ 57 then some (n - 48)
+  else if 97 ≤ n ∧ n ≤ 102 then some (n - 87)
+  else if 65 ≤ n ∧ n ≤ 70 then some (n - 55)
+  else none
+
+def hexPairs : List Char → Bytes → Option Bytes
+  | [], acc => some acc.reverse
+  | a :: b :: r, acc =>
+    match hexVal a, hexVal b with
+    | some x, some y => hexPairs r (UInt8.ofNat (16 * x + y) :: acc)
+    | _, _ => none
+  | _, _ => none
+
+def fromHex (s : String) : Option Bytes :=
+  if s = "-" then some [] else hexPairs s.toList []
+
+def errName : Err → String
+  | .eof => "eof" | .nonCanonical => "noncanonical" | .tooMany => "toomany" | .tooLong => "toolong"
+  | .badPver => "badpver" | .txCount => "txcount" | .userAgent => "useragent" | .addrPver => "addrpver"
+  | .oversizeGlobal => "oversize-global" | .magic => "magic" | .badCmd => "badcmd"
+  | .oversizeType => "oversize-type" | .checksum => "checksum" | .cmdTooLong => "cmdtoolong"
+  | .unmodelled => "unmodelled"
+
+def renderNA (na : NetAddr) : String :=
+  s!"{na.ts} {na.services} {toHex na.ip} {na.port}"
+
+def renderMsg : Msg → String
+  | .version pv sv ts you me nonce ua lb nr =>
+    s!"version {pv} {sv} {ts} {renderNA you} {renderNA me} {nonce} {toHex ua} {lb} {if nr then 1 else 0}"
+  | .verack => "verack"
+  | .getaddr => "getaddr"
+  | .sendheaders => "sendheaders"
+  | .mempool => "mempool"
+  | .addr l => l.foldl (fun s na => s ++ " " ++ renderNA na) s!"addr {l.length}"
+  | .getheaders pv loc stop => loc.foldl (fun s h => s ++ " " ++ toHex h) s!"getheaders {pv} {toHex stop} {loc.length}"
+  | .getblocks pv loc stop => loc.foldl (fun s h => s ++ " " ++ toHex h) s!"getblocks {pv} {toHex stop} {loc.length}"
+  | .headers l =>
+    l.foldl (fun s h => s ++ s!" {h.version} {toHex h.prev} {toHex h.merkle} {h.ts} {h.bits} {h.nonce}") s!"headers {l.length}"
+  | .inv l => l.foldl (fun s iv => s ++ s!" {iv.type} {toHex iv.hash}") s!"inv {l.length}"
+  | .getdata l => l.foldl (fun s iv => s ++ s!" {iv.type} {toHex iv.hash}") s!"getdata {l.length}"
+  | .notfound l => l.foldl (fun s iv => s ++ s!" {iv.type} {toHex iv.hash}") s!"notfound {l.length}"
+  | .ping n => s!"ping {n}"
+  | .pong n => s!"pong {n}"
+  | .reject cmd code reason hash => s!"reject {toHex cmd} {code} {toHex reason} {toHex hash}"
+  | .feefilter fee => s!"feefilter {fee}"
+  | .protoconf nf mr => s!"protoconf {nf} {mr}"
+
+def parseNA : List String → Option (NetAddr × List String)
+  | ts :: sv :: ip :: port :: r => do
+    pure (⟨← ts.toNat?, ← sv.toNat?, ← fromHex ip, ← port.toNat?⟩, r)
+  | _ => none
+
+def parseMany (p : List String → Option (α × List String)) : Nat → List String → Option (List α × List String)
+  | 0, r => some ([], r)
+  | n + 1, r => do
+    let (x, r) ← p r
+    let (xs, r) ← parseMany p n r
+    pure (x :: xs, r)
+
+def parseHash : List String → Option (Bytes × List String)
+  | h :: r => do pure (← fromHex h, r)
+  | _ => none
+
+def parseInv : List String → Option (InvVect × List String)
+  | t :: h :: r => do pure (⟨← t.toNat?, ← fromHex h⟩, r)
+  | _ => none
+
+def parseHeader : List String → Option (BlockHeader × List String)
+  | v :: p :: m :: t :: b :: n :: r => do
+    pure (⟨← v.toNat?, ← fromHex p, ← fromHex m, ← t.toNat?, ← b.toNat?, ← n.toNat?⟩, r)
+  | _ => none
+
+def parseList (p : List String → Option (α × List String)) : List String → Option (List α)
+  | n :: r => do
+    let (xs, r) ← parseMany p (← n.toNat?) r
+    if r.isEmpty then pure xs else none
+  | _ => none
+
+def parseMsg : List String → Option Msg
+  | "version" :: pv :: sv :: ts :: r => do
+    let (you, r) ← parseNA r
+    let (me, r) ← parseNA r
+    match r with
+    | [nonce, ua, lb, nr] =>
+      pure (.version (← pv.toNat?) (← sv.toNat?) (← ts.toNat?) you me (← nonce.toNat?) (← fromHex ua) (← lb.toNat?) (nr == "1"))
+    | _ => none
+  | ["verack"] => some .verack
+  | ["getaddr"] => some .getaddr
+  | ["sendheaders"] => some .sendheaders
+  | ["mempool"] => some .mempool
+  | "addr" :: r => .addr <$> parseList parseNA r
+  | "getheaders" :: pv :: stop :: r => do pure (.getheaders (← pv.toNat?) (← parseList parseHash r) (← fromHex stop))
+  | "getblocks" :: pv :: stop :: r => do pure (.getblocks (← pv.toNat?) (← parseList parseHash r) (← fromHex stop))
+  | "headers" :: r => .headers <$> parseList parseHeader r
+  | "inv" :: r => .inv <$> parseList parseInv r
+  | "getdata" :: r => .getdata <$> parseList parseInv r
+  | "notfound" :: r => .notfound <$> parseList parseInv r
+  | ["ping", n] => .ping <$> n.toNat?
+  | ["pong", n] => .pong <$> n.toNat?
+  | ["reject", cmd, code, reason, hash] => do
+    pure (.reject (← fromHex cmd) (← code.toNat?) (← fromHex reason) (← fromHex hash))
+  | ["feefilter", fee] => .feefilter <$> fee.toNat?
+  | ["protoconf", nf, mr] => do pure (.protoconf (← nf.toNat?) (← mr.toNat?))
+  | _ => none
+
+def strBytes (s : String) : Bytes := s.toUTF8.toList
+
+def meter (al : List Nat) : String :=
+  s!"{al.length} {al.foldl max 0} {al.foldl (· + ·) 0}"
+
+def sha : Bytes → Bytes := BHS.WireSha.sha256
+
+def handle (st : S) : List String → Option (S × String)
+  | ["wcfg", ebs] => some <| match ebs.toNat? with
+    | some e => ({ st with gmax := maxMessagePayload e }, s!"{maxMessagePayload e}")
+    | none => (st, "bad-args")
+  | ["wsha", h] => some <| match fromHex h with
+    | some b => (st, toHex (sha b))
+    | none => (st, "bad-args")
+  | "wwf" :: pver :: r => some <| match pver.toNat?, parseMsg r with
+    | some pv, some m => (st, if decide (WF st.gmax pv m) then "1" else "0")
+    | _, _ => (st, "bad-args")
+  | "wenc" :: pver :: r => some <| match pver.toNat?, parseMsg r with
+    | some pv, some m =>
+      (st, match encodePayload pv m with
+        | .ok b => "ok " ++ toHex b
+        | .error e => "err " ++ errName e)
+    | _, _ => (st, "bad-args")
+  | ["wdec", pver, cmd, h] => some <| match pver.toNat?, fromHex h with
+    | some pv, some b =>
+      (st, match lookupCmd (strBytes cmd) with
+        | none => "err badcmd"
+        | some t => match decodePayload st.gmax pv t b with
+          | .ok m => "ok " ++ renderMsg m
+          | .error e => "err " ++ errName e)
+    | _, _ => (st, "bad-args")
+  | ["walloc", pver, cmd, h] => some <| match pver.toNat?, fromHex h with
+    | some pv, some b =>
+      (st, match lookupCmd (strBytes cmd) with
+        | none => "err badcmd"
+        | some t => meter (decodeAllocs st.gmax pv t b))
+    | _, _ => (st, "bad-args")
+  | "wwrite" :: pver :: net :: r => some <| match pver.toNat?, net.toNat?, parseMsg r with
+    | some pv, some n, some m =>
+      (st, match writeMessage sha st.gmax pv n m with
+        | .ok b => "ok " ++ toHex b
+        | .error e => "err " ++ errName e)
+    | _, _, _ => (st, "bad-args")
+  | ["wframe", pver, net, h] => some <| match pver.toNat?, net.toNat?, fromHex h with
+    | some pv, some n, some b =>
+      (st, match readMessage sha st.gmax pv n b with
+        | .ok (m, rest) => s!"ok {b.length - rest.length} " ++ renderMsg m
+        | .error e => "err " ++ errName e)
+    | _, _, _ => (st, "bad-args")
+  | ["wfalloc", pver, net, h] => some <| match pver.toNat?, net.toNat?, fromHex h with
+    | some pv, some n, some b => (st, meter (readMessageAllocs sha st.gmax pv n b))
+    | _, _, _ => (st, "bad-args")
+  | _ => none
 
 end Driver.Ops.Wire
